@@ -98,6 +98,7 @@ impl NodeCfg {
             dhcp: false,
             dhcp_leased_unapplied: vec![],
             dhcp_unmanaged: false,
+            slaac_prefixes: false,
         }
     }
     pub fn rx_verifies_all(&self) -> bool {
